@@ -11,7 +11,7 @@ ID, TITLE, LEVEL = 'C06', 'SEG-Y export round trip', 'exploration'
 RULE = ('case = one generated SEG-Y (regular ascending/descending, irregular, 2D; IBM/IEEE; header model content; constant '
         'delay recording time) x a valid setting x detection mode, converted and exported through the API or the CLI; segyio on the '
         'export vs segyio on the original: trace count, sample axis, unstructured flag, line axes, first 3600 bytes identical, every '
-        'trace header equal for all 89 fields, trace i of the export = SgzReader.get_trace(i) bitwise (IEEE) or within relative 2^-20 '
+        'trace header equal for all 89 fields, trace i of the export = trace i of the independent O-SPEC decode of the SGZ bitwise (IEEE) or within relative 2^-20 '
         '(IBM); trace order decided by the per-trace watermark. distinct = (geometry, format, setting, route); non-trivial = export '
         'opened and every trace compared')
 ASSUMPTIONS = ['segyio opens both files (strict=False)']
@@ -33,6 +33,11 @@ def cases(tier, seed):
             src = conv.src_desc(rng, '2d', (rng.choice([2, 5, 17, 40, 128]), rng.choice([4, 9, 20])), how2d=rng.choice(['nonumbers', 'single-inline', 'single-crossline']),
                                 hdr=hdr, fmt=fmt, valkind=rng.choice(['smooth', 'noise', 'neg']))
             rate, bs = rng.choice([(4, (1, 16, -1)), (8, (1, 4, -1)), (16, (1, 16, -1))])
+            if i % 16 == 3:
+                # traces longer than one disk block in the per-trace-group layout
+                rate, bs = rng.choice([(16, (1, 4, -1)), (32, (1, 4, -1))])
+                src = conv.src_desc(rng, '2d', (rng.choice([6, 9, 13]), rng.choice([600, 1100])), how2d=rng.choice(['nonumbers', 'single-inline', 'single-crossline']),
+                                    hdr=hdr, fmt=fmt, valkind='smooth')
         else:
             nI, nX = rng.choice([(5, 5), (8, 9), (3, 13), (9, 4), (6, 6)])
             kw = {}
@@ -41,7 +46,8 @@ def cases(tier, seed):
             else:
                 kw = {'il': [rng.choice([1, 10, -20]), rng.choice([1, 2, -1])], 'xl': [rng.choice([1, 100]), rng.choice([1, 3, -2])]}
             src = conv.src_desc(rng, geom, (nI, nX, rng.choice([4, 9, 20])), hdr=hdr, fmt=fmt, valkind=rng.choice(['smooth', 'noise', 'neg']), **kw)
-            rate, bs = rng.choice([(4, (4, 4, -1)), (8, (4, 4, -1)), (16, (4, 4, -1)), (2, (64, 64, 4)), (8, (8, 8, -1)), (1, (4, 4, -1))])
+            rate, bs = rng.choice([(4, (4, 4, -1)), (8, (4, 4, -1)), (16, (4, 4, -1)), (2, (64, 64, 4)), (8, (8, 8, -1)), (1, (4, 4, -1)),
+                                   (8, (4, 8, -1)), (8, (8, 4, -1)), (16, (16, 4, -1)), (4, (4, 16, -1)), (32, (4, 4, -1)), (0.5, (4, 4, -1))])
         out.append({'id': 'rt:%d:%s:fmt%d' % (i, geom, fmt), 'src': src, 'rate': rate, 'bs': list(bs), 'detection': rng.choice(['thorough', 'exhaustive', 'heuristic']),
                     'route': 'cli' if i % 5 == 0 else 'api', 'cost': 2})
     return out
@@ -108,10 +114,19 @@ def run_case(case, ctx):
                     bad.append({'sig': 'export:file-header-bytes-differ', 'detail': geom})
                 if not bad:
                     T = src['traces']
+                    # the values decoded from the SGZ: the independent O-SPEC decode of the file (not the package's own get_trace)
+                    spx = oracles.Spec(sgz)
+                    Vx = spx.decode()
+                    if geom == '2d':
+                        decoded = Vx
+                    elif geom == 'irregular':
+                        decoded = np.stack([Vx[i, x] for i, x in src['positions']])
+                    else:
+                        decoded = Vx.reshape(-1, Vx.shape[-1])
                     for t in range(a.tracecount):
                         n += 1
                         et = np.asarray(b.trace[t], dtype=np.float32)
-                        st = np.asarray(r.get_trace(t), dtype=np.float32)
+                        st = np.ascontiguousarray(decoded[t], dtype=np.float32)
                         if src['fmt'] == 5:
                             ok = et.tobytes() == st.tobytes()
                         else:
